@@ -21,6 +21,11 @@ impl Adapter for RetryAd {
         "retry"
     }
     fn gen_cfg(&mut self, rng: &mut Rng, _size: Size) -> Value {
+        if rng.pct(3) {
+            // a long losing streak: 40 attempts under exponential backoff with a small cap (see script)
+            return json!({"hm": 0, "max": 40, "perReq": 0, "pred": "all", "bo": "exp", "b0": 1, "cap": 2 + rng.below(3), "budget": -1, "bmax": 3, "btype": "tb",
+                          "ord": rng.below(12), "pre": 0, "alt": 0, "bctor": 0, "bmin": 1, "cost": 1, "amount": 1, "fnum": 2});
+        }
         let bo = *rng.pick(&["fixed", "exp", "exp", "rand"]);
         let aimd = rng.pct(30);
         let bmax = 2 + rng.below(3) as i64;
@@ -108,6 +113,21 @@ impl Adapter for RetryAd {
         p.w_create = 3;
         p.max_adv = 3;
         p
+    }
+    fn script(&mut self, cfg: &Value, _size: Size, _rng: &mut Rng) -> Option<Vec<Value>> {
+        let max = cfg["max"].as_u64().unwrap_or(0);
+        if max < 30 {
+            return None;
+        }
+        let cap = cfg["cap"].as_u64().unwrap();
+        let mut v = vec![json!({"e":"create","c":1,"key":1}), json!({"e":"poll","c":1})];
+        for _ in 0..max {
+            v.push(json!({"e":"complete","c":1,"out":"e1"}));
+            v.push(json!({"e":"poll","c":1}));
+            v.push(json!({"e":"advance","d":cap}));
+            v.push(json!({"e":"poll","c":1}));
+        }
+        Some(v)
     }
     fn teardown(&mut self) {
         self.svc = None;
